@@ -10,6 +10,8 @@ mod c20;
 mod resp;
 mod c01;
 mod c01dir;
+mod c04;
+mod c04dir;
 mod consumer;
 mod c12;
 mod c13;
@@ -70,6 +72,7 @@ fn main() {
         "c20" => c20::run(&out, &tier, seed, shards, replay),
         "c01" => c01::run(&out, &tier, seed, shards, replay, "C01"),
         "c03" => c01::run(&out, &tier, seed, shards, replay, "C03"),
+        "c04" => c04::run(&out, &tier, seed, shards, replay),
         "c11" => c11::run(&out, &tier, seed, shards, replay),
         other => {
             eprintln!("unknown command {}", other);
